@@ -161,3 +161,8 @@ def run(ctx):
     cmp_ = {(o, x.lstrip("&*"), y.lstrip("&*")) for (o, x, y, fa) in unit_comparisons(prog, f)}
     ctx.check(("Lt", "p2", "p1@Some.0.0") in cmp_ and ("Lt", "p1@Some.0.1", "p2") in cmp_, R, "closure lifting: captured and bound variables", str(sorted(cmp_)),
               "engine self-test: comparisons of closure_cmp's closure not lifted into the creator's terms: %s" % sorted(cmp_), key=R + "|lift")
+    from .rules import flush as _flush
+    for name, want in (("bufwriter_dropped", False), ("bufwriter_flushed", True)):
+        f = prog.fn("canary::" + name)
+        ss = _flush.adapter_sites(prog, f)
+        ctx.check(len(ss) == 1 and ss[0][1] == want, R, "%s: buffering adapter" % name, str(ss), "engine self-test: %s should have one BufWriter site judged %s, got %s" % (name, want, ss), key="%s|%s" % (R, name))
